@@ -43,7 +43,8 @@ for t in ["i64", "i32", "isize", "i16", "i8"]:
 c10("t1_cursor_fixed", "T1", "every byte string <= 11, two consecutive reads of any fixed-width / "
     "read_exact(u32 len) / read_buf / read_string reader", "Cursor fixed-width readers")
 
-c10("t2_v2_new", "T2", "every byte string <= 12", "DecoderV2::new (column framing)")
+c10("t2_v2_new", "T2", "every byte string <= 12", "DecoderV2::new (column framing)", timeout=1200,
+    kani_args=["--solver", "minisat"])
 for col in ["client", "left_clock", "right_clock", "info", "parent_info", "type_ref", "len", "string",
             "key_clock", "ds"]:
     c10("t2_col_%s_full" % col, "T2", "well-framed v2 buffer, column under test = every 6-byte string, "
@@ -63,7 +64,7 @@ for c in (0, 1, 2):
 c10("t3_id_range_count_v1", "T3", "every byte string <= 6, path cut at the first pushed element",
     "IdRange::decode: reservation made from the count field")
 c10("t3_id_set_v1", "T3", "1 client (id < 128), 1 range, every clock/len byte, every prefix length",
-    "IdSet::decode_v1 (BTreeMap insert of one key)", required=False, timeout=900)
+    "IdSet::decode_v1 (BTreeMap insert of one key)", tier="thorough", required=False, timeout=2400, mem=24)
 
 for n, b in [("gc", "GC"), ("skip", "Skip"), ("deleted", "Deleted, parent info"),
              ("deleted_o", "Deleted + origin"), ("deleted_r", "Deleted + right origin"),
@@ -281,7 +282,22 @@ for n in ("empty", "1", "2", "3", "4", "1_4", "3_2"):
     c09("r2_string_" + n, "R2", "characters of the given UTF-8 widths, symbolic code points",
         "write_string -> read_string")
 
+c09("r9_any_bigint", "R9", "every i64", "Any::BigInt encode -> decode")
+c09("r9_any_buffer", "R9", "every 3-byte buffer", "Any::Buffer encode -> decode")
+R3B = ("well-framed v2 buffer whose %s column is every 5-byte string; 3 reads compared with a reference "
+       "model of the lib0 v2 column format")
+c09("r3_col_client", "R3", R3B % "client", "DecoderV2::read_client (UintOptRle + 53-bit check) vs model", timeout=900)
+c09("r3_col_len_u32", "R3", R3B % "len", "DecoderV2::read_len (UintOptRle) vs model", timeout=900)
+c09("r3_col_type_ref_u8", "R3", R3B % "type-ref", "DecoderV2::read_type_ref (UintOptRle) vs model", timeout=900)
+c09("r3_col_left_clock", "R3", R3B % "left-clock", "DecoderV2::read_left_id (IntDiffOptRle) vs model", timeout=900)
+c09("r3_col_right_clock", "R3", R3B % "right-clock", "DecoderV2::read_right_id (IntDiffOptRle) vs model", timeout=900)
+c09("r3_col_info", "R3", "info column = every byte string of length 0..5; 3 reads vs model",
+    "DecoderV2::read_info (Rle) vs model", timeout=1200, kani_args=["--solver", "minisat"])
+
 ASSUMPTIONS["C09"] = [
+    "R3 decides the *decoder* half of the v2 run-length columns against a reference model of the format "
+    "(UintOptRle, IntDiffOptRle, Rle); the encoder half (EncoderV2's private column encoders, reachable "
+    "through a hook) followed by a decoder needs 30-60 GB with either solver and is not decided",
     "wire types backed by a std HashMap beyond their empty value (StateVector, Snapshot.state_map, "
     "AwarenessUpdate, Any::Map, Update's client table, IdMap attributes), multi-block Updates, serde/JSON "
     "forms and the Yjs-generated payloads in assets/ are outside the claim",
